@@ -596,11 +596,19 @@ def apply_op(B, states, op):
             new_mf, st = SimplerUpdater(x).update_model_approx(new_dist, fa, cur, status)
         elif op.get("via") == "factor-updater":
             new_mf, st = FactorUpdater({f: x}, default=0.123).update_model_approx(new_dist, fa, cur, status)
+        elif op.get("via") == "two-step":
+            # the same update through the two-step API (factor approximation first, then the mean field)
+            proj, st = fa.project_mean_field(new_dist, delta=x, status=status)
+            new_mf, st = cur.project_factor_approx(proj, st)
         else:
             new_mf, st = cur.project_mean_field(new_dist, fa, delta=x, status=status)
     elif d["k"] == "pervar":
         dm = MeanField({var[v]: h2f(x) for v, x in d["d"]})
-        new_mf, st = cur.project_mean_field(new_dist, fa, delta=dm, status=status)
+        if op.get("via") == "two-step":
+            proj, st = fa.project_mean_field(new_dist, delta=dm, status=status)
+            new_mf, st = cur.project_factor_approx(proj, st)
+        else:
+            new_mf, st = cur.project_mean_field(new_dist, fa, delta=dm, status=status)
     else:
         new_mf, st = DynamicUpdater(h2f(d["d"])).update_model_approx(new_dist, fa, cur, status)
     return f, fa, new_dist, new_mf, st
@@ -722,7 +730,7 @@ def _graph_case(ctx, prog, case, ops=None, n_ops=None, label="gen"):
             dv = delta_values(B, delta, scope, fields[-1], None)
             qf = choose_q(rng, B, scope, old0, cav0, dv, want_valid=rng.random() < 0.8)
             op = {"f": fi, "age": age, "q": wire_field(qf), "delta": delta, "success": rng.random() < 0.75, "tag": k + 1,
-                  "via": rng.choice(["project", "updater", "factor-updater"])}
+                  "via": rng.choice(["project", "updater", "factor-updater", "two-step"])}
         case["ops"] = [o for o, *_ in done] + [op]
         f, fa, new_dist, new_mf, st = apply_op(B, states, op)
         fa_fields = (field_of(B, fa.cavity_dist), field_of(B, fa.factor_dist), field_of(B, fa.model_dist))
@@ -737,6 +745,16 @@ def _graph_case(ctx, prog, case, ops=None, n_ops=None, label="gen"):
         ctx.hit("factor:" + ("prior" if op["f"] >= B.n_model else "model"))
         k += 1
     case["ops"] = [o for o, *_ in done]
+    # approximations are values: an update returns a new approximation and leaves the one it started from
+    # (and everything recorded in the history) as it was
+    for k_, (obj, rec_) in enumerate(zip(states, fields)):
+        now = state_of(B, obj)
+        if {i: wire_field(f_) for i, f_ in now.items()} != {i: wire_field(f_) for i, f_ in rec_.items()}:
+            changed = sorted(i for i in rec_ if wire_field(now.get(i, {})) != wire_field(rec_[i]))
+            ctx.fail("C18-earlier-approximation-changed",
+                     f"the approximation after update {k_} changed when later updates were made (factors {changed[:4]})",
+                     dict(case, step=k_), {"then": {i: show(rec_[i]) for i in changed[:2]}, "now": {i: show(now[i]) for i in changed[:2] if i in now}})
+            break
     ops_wire = [{kk: o[kk] for kk in ("f", "age", "q", "delta", "success", "tag") if kk in o} for o, *_ in done]
     ans = lean_ep(ctx, B, fl, ops_wire)
     shared = any(sum(1 for ps in B.places if v in ps) >= 2 for v in B.order)
